@@ -369,31 +369,75 @@ def run(chk):
                         ok="tGswEncryptZero then %s(result, message, key->params)" % adder, bad=[summ.show_piece(p)[:80] for p in eps], variant=vn)
         # block-diagonal placement of mu*h_i
         for aname in ("tGswAddMuH", "tGswAddMuIntH", "tGswAddH"):
+            # the statements are interpreted for k in {1,2}, l in {1,2,3}, N in {1,2,3} (sa/concrete.py): every update must hit
+            # component `bloc` of row (bloc, i) with a value carrying h[i] (and mu[j] at coefficient j for the polynomial
+            # variant), and all (bloc, i) with bloc <= k, i < l must be updated exactly once -- whatever the loop order
+            from sa import concrete
+            from sa.pipeline import AnalysisBroken
+            import itertools
             a = v.fn(aname)
-            aps, _ = summ.pieces(v, a, hooks=NOINLINE)
-            st = [p for p in aps if p["kind"] == "store"]
+            aps, aeff = summ.pieces(v, a, hooks=NOINLINE)
             ares = a.params[0]["n"]
             apar = a.params[-1]["n"]
+            amsg = a.params[1]["n"] if len(a.params) == 3 else None
+            K_, L_, N_ = sym.arrow(P(apar, "tlwe_params"), "k"), P(apar, "l"), sym.arrow(P(apar, "tlwe_params"), "N")
+            Hf = P(apar, "h")
+            poly_variant = aname == "tGswAddMuH"
             problems = []
-            if len(st) != 1 or len(st[0]["loops"]) < 2:
-                problems.append("expected one statement in a (bloc, i[, j]) nest")
-            else:
-                s = st[0]
-                bl, il = s["loops"][0], s["loops"][1]
-                b_, i_ = bl["var"], il["var"]
-                K = sym.arrow(P(apar, "tlwe_params"), "k")
-                hi_b = bl["hi"] if bl["cmp"] == "<" else sym.add(bl["hi"], I(1))
-                if bl["lo"] != ZERO or hi_b != sym.add(K, I(1)) or not summ.visits(il, ZERO, P(apar, "l")):
-                    problems.append("ranges bloc in [%s,%s), i in [%s,%s)" % (sym.show(bl["lo"]), sym.show(hi_b), sym.show(il["lo"]), sym.show(il["hi"])))
-                row = sym.idx(sym.idx(P(ares, "bloc_sample"), b_), i_)
-                comp = sym.fld(sym.idx(sym.fld(row, "a"), b_), "coefsT")
-                if s["lv"][0] != "idx" or s["lv"][1] != comp:
-                    problems.append("target %s is not component `bloc` of row (bloc, i)" % sym.show(s["lv"]))
-                hterm = sym.idx(P(apar, "h"), i_)
-                if s["op"] != "+=" or not sym.contains(s["val"], hterm):
-                    problems.append("value %s %s does not carry h[i]" % (s["op"], sym.show(s["val"])))
+            for kv, lv_, nv in itertools.product((1, 2), (1, 2, 3), (1, 2, 3)):
+                if problems:
+                    break
+                env = {K_: kv, L_: lv_, N_: nv, P(apar, "kpl"): (kv + 1) * lv_}
+                if amsg and poly_variant:
+                    env[P(amsg, "N")] = nv
+                hits = {}
+
+                def handler(kind, x, env):
+                    if kind == "cond":
+                        return None
+                    if kind == "call" and not x.get("noreturn") and x["name"] not in ("__assert_fail",):
+                        raise AnalysisBroken("%s: call to %s has no meaning here" % (aname, x["name"]))
+                    if kind != "store":
+                        return
+                    try:
+                        r, pth = concrete.lvalue_location(x["lv"], env)
+                    except concrete.NotEvaluable as e:
+                        raise AnalysisBroken("%s: %s" % (aname, e))
+                    if r != sym.sym(ares):
+                        return
+                    if not (len(pth) == 8 and pth[1] == "bloc_sample" and pth[4] == "a" and pth[6] == "coefsT"):
+                        problems.append("with k=%d, l=%d, N=%d: %s is written (line %s), not a coefficient of a row of the block table" % (
+                            kv, lv_, nv, sym.show(x["lv"])[:80], x["l"]))
+                        return
+                    b_, i_, c_, j_ = pth[2], pth[3], pth[5], pth[7]
+                    hx = [concrete.eval_term(st_[2], env) for st_ in sym.subterms(x["val"]) if st_[0] == "idx" and st_[1] == Hf]
+                    mx = [concrete.eval_term(st_[2], env) for st_ in sym.subterms(x["val"])
+                          if amsg and st_[0] == "idx" and st_[1] == P(amsg, "coefs")]
+                    if x["op"] != "+=":
+                        problems.append("row (%d,%d) is updated with '%s'" % (b_, i_, x["op"]))
+                    elif c_ != b_:
+                        problems.append("with k=%d: row (bloc=%d, i=%d) is updated on component %d, the gadget sits on component `bloc` = %d" % (kv, b_, i_, c_, b_))
+                    elif hx != [i_]:
+                        problems.append("row (bloc=%d, i=%d) receives h[%s], expected h[%d]" % (b_, i_, hx, i_))
+                    elif poly_variant and mx != [j_]:
+                        problems.append("coefficient %d of row (%d,%d) receives mu[%s]" % (j_, b_, i_, mx))
+                    hits[(b_, i_, j_)] = hits.get((b_, i_, j_), 0) + 1
+                try:
+                    concrete.interpret(aeff, env, handler)
+                except concrete.NotEvaluable as e:
+                    raise AnalysisBroken("%s: %s" % (aname, e))
+                want = {(b_, i_, j_) for b_ in range(kv + 1) for i_ in range(lv_) for j_ in (range(nv) if poly_variant else (0,))}
+                if not problems and (set(hits) != want or any(c != 1 for c in hits.values())):
+                    miss = sorted(want - set(hits))
+                    extra = sorted(set(hits) - want)
+                    dup = sorted(h_ for h_, c in hits.items() if c > 1)
+                    problems.append("with k=%d, l=%d, N=%d: %s" % (kv, lv_, nv, "; ".join(
+                        ([("row (bloc=%d, i=%d) coefficient %d is never updated" % miss[0])] if miss else []) +
+                        ([("(bloc=%d, i=%d) coefficient %d is updated although outside the gadget" % extra[0])] if extra else []) +
+                        ([("(bloc=%d, i=%d) coefficient %d is updated %d times" % (dup[0] + (hits[dup[0]],)))] if dup else []))))
             chk.require(not problems, "R3", "%s adds mu*h[i] on component `bloc` of row (bloc, i) for all bloc <= k, i < l" % aname, where=a.where,
-                        ok="bloc_sample[bloc][i].a[bloc] += mu * h[i]", bad="; ".join(problems), variant=vn)
+                        ok="bloc_sample[bloc][i].a[bloc] += mu * h[i] for every bloc <= k, i < l (interpreted for k in {1,2}, l, N in 1..3)",
+                        bad="; ".join(problems)[:500], variant=vn)
         gd = v.fn("tGswSymDecrypt")
         dps, _ = summ.pieces(v, gd, hooks=NOINLINE)
         dres, dsamp, dkey, dM = [p["n"] for p in gd.params]
